@@ -40,7 +40,7 @@ func (o *in) fireCmd() error {
 	cmd.Stdout = wr
 	err := cmd.Start()
 	if err != nil {
-		o.Lock()
+		// the mutex is still held from the top of the function
 		o.hasProc = false
 		o.Unlock()
 		return err
